@@ -27,7 +27,7 @@ ALPHABET = "{97, 110, 48, 95, 58, 34, 92, 10, 32, 233}"        # a n 0 _ : " \ L
 PAIR_ALPHABET = "{97, 110, 48, 34, 92, 10, 32}"
 STRUCT_ALPHABET = "{97, 34, 92, 10, 123, 125, 44, 61, 35, 32}"  # a " \ LF { } , = # space
 ALL_SCOPES = ["names", "names_dist", "keys", "keys_global", "values", "values_dist", "descs", "matrix",
-              "pair_name_desc", "pair_key_value", "pair_values"]
+              "overrides", "override_pats", "pair_name_desc", "pair_key_value", "pair_values"]
 INVS = "NameGrammar LabelGrammar ValueEscaped DescEscaped NoSyntaxError Complete NameRuleOrCF08 NoForgery"
 
 
@@ -36,13 +36,14 @@ def tla_set(xs):
 
 
 def mc_cfg(name, spec="MCSpec", inv=INVS, unit_fix=None, alphabet=ALPHABET, maxlen=4, pair_alphabet=PAIR_ALPHABET,
-           pairlen=2, scopes=ALL_SCOPES, veclen=None):
+           pairlen=2, scopes=ALL_SCOPES, veclen=None, type_by_name=True):
     p = os.path.join(vlib.SPECS, SPEC, "gen_%s.cfg" % name)
     uf = UNIT_FIX if unit_fix is None else unit_fix
     with open(p, "w") as f:
         f.write("SPECIFICATION %s\nCONSTANTS\n" % spec)
-        f.write(" UnitFix = %s\n Alphabet = %s\n MaxLen = %d\n PairAlphabet = %s\n PairLen = %d\n Scopes = %s\n"
-                % ("TRUE" if uf else "FALSE", alphabet, maxlen, pair_alphabet, pairlen, tla_set(scopes)))
+        f.write(" UnitFix = %s\n TypeByName = %s\n Alphabet = %s\n MaxLen = %d\n PairAlphabet = %s\n PairLen = %d\n Scopes = %s\n"
+                % ("TRUE" if uf else "FALSE", "TRUE" if type_by_name else "FALSE", alphabet, maxlen, pair_alphabet, pairlen,
+                   tla_set(scopes)))
         if veclen is not None:
             f.write(" VecLen = %d\n" % veclen)
         if inv:
@@ -54,7 +55,7 @@ def mc_cfg(name, spec="MCSpec", inv=INVS, unit_fix=None, alphabet=ALPHABET, maxl
 def trace_cfg():
     p = os.path.join(vlib.SPECS, SPEC, "gen_trace.cfg")
     with open(p, "w") as f:
-        f.write("SPECIFICATION TraceSpec\nCONSTANTS\n UnitFix = %s\n" % ("TRUE" if UNIT_FIX else "FALSE"))
+        f.write("SPECIFICATION TraceSpec\nCONSTANTS\n UnitFix = %s\n TypeByName = TRUE\n" % ("TRUE" if UNIT_FIX else "FALSE"))
         f.write("INVARIANTS %s AsModel\nPOSTCONDITION TraceAccepted\nCHECK_DEADLOCK FALSE\n" % INVS)
     return os.path.basename(p)
 
@@ -74,7 +75,7 @@ def run(chk):
     if thorough:
         runs = [("all5", dict(maxlen=5, pairlen=2, pair_alphabet=ALPHABET)),
                 ("struct", dict(maxlen=4, pairlen=2, alphabet=STRUCT_ALPHABET, pair_alphabet=STRUCT_ALPHABET,
-                                scopes=[s for s in ALL_SCOPES if s != "matrix"]))]
+                                scopes=[s for s in ALL_SCOPES if s not in ("matrix", "overrides")]))]
     else:
         runs.append(("struct", dict(maxlen=3, pairlen=1, alphabet=STRUCT_ALPHABET, pair_alphabet=STRUCT_ALPHABET,
                                     scopes=["values", "descs", "keys", "names", "pair_values"])))
@@ -97,8 +98,14 @@ def run(chk):
     if r["invariant"] or not r["ok"]:
         chk.tool_error("model of the repaired code violates %s" % r["invariant"], r["out"][-2000:])
     chk.notes["cf08_repair"] = "UnitFix=TRUE: strict NameRule holds on %d states of the matrix scope" % r["distinct"]
-    if not UNIT_FIX:
-        chk.cov["states"] += 0  # witness runs are not counted as coverage
+    # the recogniser rejects a TYPE line that does not fit the samples stored for the name (per-metric overrides):
+    # variant "histogram as soon as any override exists" must violate NoSyntaxError
+    cfg = mc_cfg("wit_type", inv="NoSyntaxError Complete", maxlen=1, pairlen=1, scopes=["overrides"], type_by_name=False)
+    r = vlib.tlc_mc(SPEC, "MCPromText", cfg, workers=2, timeout=600, tag="wit_type", coverage=False)
+    if r["invariant"] != "NoSyntaxError":
+        chk.tool_error("recogniser accepts quantile samples under TYPE histogram (type/sample witness lost): %s"
+                       % r["invariant"], r["out"][-2000:])
+    chk.notes["type_witness"] = "TypeByName=FALSE (TYPE ignores the metric name) violates NoSyntaxError at depth %d" % r["depth"]
 
     # ---- 3. TLC exports vectors and scenes
     vec, scn = chk.path("vectors.ndjson"), chk.path("scenes.ndjson")
@@ -144,6 +151,8 @@ def run(chk):
     chk.cov["traces_validated_against_impl"] += s3["scenes"] + s3["random_strings"]
     chk.cov["distinct_nontrivial"] += s3["distinct_renderings"]
     for k, s in (("replay", s2), ("record", s3)):
+        if not s.get("override_only_scenes_with_unmatched_distribution"):
+            chk.tool_error("%s: no scene with per-metric overrides only and a distribution matching none (vacuous)" % k)
         if s.get("panics") or s.get("parse_errors"):
             chk.log("%s: panics=%s parse_errors=%s (reported by trace validation)" % (k, s.get("panics"), s.get("parse_errors")))
 
